@@ -197,6 +197,16 @@ pub fn panic_viol(kind: Kind, opname: &str, extra: &[&'static str]) -> Viol {
     Viol { monitor: "M-PANIC", op: opname.to_string(), kind: kind.name(), detail: format!("panic: {}", msg), props }
 }
 
+/// After a violation the model is re-read from the map. True iff the queue is then consistent with
+/// it (order aside): every content monitor is silent on the resynchronised state.
+fn resync_explains<Q: QueueApi>(st: &mut State<Q>, universe: &[u32]) -> bool {
+    let saved = st.order_suspended;
+    st.order_suspended = true;
+    let r = catch_unwind(AssertUnwindSafe(|| st.post_check("resync", &[], universe, true).is_ok()));
+    st.order_suspended = saved;
+    matches!(r, Ok(true))
+}
+
 /// Control for "the queue stays usable after <event>" continuations: the same operations on a
 /// queue in the same state that never saw the event. A violation here belongs to the operations
 /// themselves (reported under their own properties), not to the event under test; the caller then
@@ -280,6 +290,10 @@ pub fn run_history<Q: QueueApi>(
                 st.order_suspended = true;
             }
             st.m = Model::from_snap(&s);
+            if !resync_explains(&mut st, &universe) {
+                std::mem::forget(st);
+                return (reports, hist, trace);
+            }
             s
         }
         Err(_) => {
@@ -363,6 +377,13 @@ pub fn run_history<Q: QueueApi>(
                     break;
                 }
                 st.m = Model::from_snap(&s);
+                if !resync_explains(&mut st, &universe) {
+                    // the contents of the map still do not explain what the queue reports (duplicate
+                    // keys, stored items that cannot be looked up): whatever later operations show
+                    // could not be attributed to them. The episode ends here.
+                    dead = true;
+                    break;
+                }
                 let last_mon = reports.last().map(|r| r.viol.monitor);
                 let order_err = if st.order_suspended {
                     None
